@@ -81,12 +81,12 @@ Fixpoint deser_type_f (fuel : nat) (depth : N) : parser coltype :=
       else if id =? 34 then e <- deser_type_f f (depth + 1) ;; ret (TSet false e)
       else if id =? 48 then
         ks <- read_string ;; name <- read_string ;; n <- read_short ;;
-        tick_alloc (u16 n * SZ_UDT_FIELD) ;;;
+        tick_alloc_capped n 4 SZ_UDT_FIELD ;;;
         fs <- repeatS (fname <- read_string ;; ft <- deser_type_f f (depth + 1) ;; ret (fname, ft)) n ;;
         ret (TUdt false ks name fs)
       else if id =? 49 then
         n <- read_short ;;
-        tick_alloc (u16 n * SZ_COLTYPE) ;;;
+        tick_alloc_capped n 2 SZ_COLTYPE ;;;
         es <- repeatS (deser_type_f f (depth + 1)) n ;;
         ret (TTuple es)
       else match native_of_id id with
